@@ -296,6 +296,15 @@ def oracle_lanczos(ctx, case, r):
     dK, ratios = krylov_dim(Ms, v0s, opts['N_max'] + 1)
     well = N <= dK       # beyond the exact Krylov dimension only rounding noise is added (N_min forces it, or the cutoff missed it)
     tol = cond_tol(scale, ratios, N)
+    full_reortho = bool(opts.get('reortho') and (opts.get('N_cache') or opts['N_max']) >= N)
+    if well and N > 2 and not full_reortho:
+        # orthogonality the plain three-term recurrence can keep on this input in double precision (outliers of the spectrum converge early and
+        # destroy it): widens the tolerances; beyond 1e-4 only the bookkeeping is checked
+        loss = XT.plain_lanczos_loss(Ms, v0s, N)
+        extra['orth_loss'] = loss
+        tol = max(tol, 10 * scale * loss)
+        if loss > 1e-4:
+            well = False
     if case.get('evo') is None:
         E_run = pl['E'] + s
         if abs(np.linalg.norm(x) - 1.0) > 1e-10:
@@ -375,7 +384,10 @@ def oracle_lanczos(ctx, case, r):
             xk = XT.krylov_expm(Ms, v0s, N, delta)
             if xk is not None:
                 refk = xk / np.linalg.norm(xk) if normalize else xk
-                devk = np.linalg.norm(x - refk) / max(1.0, np.linalg.norm(refk))
+                with np.errstate(all='ignore'):
+                    devk = np.linalg.norm(x - refk) / max(1.0, np.linalg.norm(refk))
+                if not np.isfinite(devk):
+                    devk = 0.0          # exp(delta h) overflows (real delta times an eigenvalue > 700): nothing to compare
                 extra['ritz_margin'] = devk / (10 * etol)
                 if devk > 10 * etol:
                     probs.append('result differs by %.3e from the Krylov approximation |psi0| V exp(delta V^dagger H V) e_1 of dimension N=%d '
@@ -438,7 +450,10 @@ def oracle_arnoldi(ctx, case, r):
             x = G.dec(run['psi'])[I]
             N = run['N']
             dK, ratios = krylov_dim(Ms, v0s, case['opts']['N_max'] + 1)
-            etol = max(1e-7, 10 * cond_tol(scale, ratios, N) / scale)
+            loss = XT.plain_arnoldi_loss(Ms, v0s, N) if N <= dK else 1.0
+            if loss > 1e-4:
+                dK = -1        # one-pass Gram-Schmidt cannot keep the basis orthogonal on this input: only norms are checked
+            etol = max(1e-7, 10 * max(cond_tol(scale, ratios, N), 10 * scale * loss) / scale)
             if N <= dK and (N < case['opts']['N_max'] or N >= dK) and np.linalg.norm(x - ref) > etol * max(1.0, np.linalg.norm(ref)):
                 probs.append('ArnoldiEvolution delta=%s: deviation %.3e from expm (N=%d, dim=%d)' % (d, np.linalg.norm(x - ref), N, m))
             if N <= dK:
@@ -460,6 +475,10 @@ def oracle_arnoldi(ctx, case, r):
     N = r['N']
     dK, ratios = krylov_dim(Ms, v0s, case['opts']['N_max'] + 1)
     tol = cond_tol(scale, ratios, N)
+    loss = XT.plain_arnoldi_loss(Ms, v0s, N) if N <= dK else 1.0
+    tol = max(tol, 10 * scale * loss)
+    if loss > 1e-4:
+        dK = -1            # one-pass Gram-Schmidt cannot keep the basis orthogonal on this input: only order / count are checked
     k = min(N, case['opts']['num_ev'] or 1)
     if not r.get('psi0_untouched', True):
         probs.append('Arnoldi modified the start vector it was given')
@@ -1170,6 +1189,22 @@ def main(ctx):
         '(observed deviations < 1e-10)',
         'C16 oracle tolerances: 1e-8*|H| for Rayleigh quotient / lower bound, 1e-7 for expm; results with N > dim(sector) '
         '(option N_min forces iterations beyond the exhausted Krylov space) are only checked for the bookkeeping',
+        'C16 Ritz oracles (every N): E0 = smallest Ritz value, Ritz vector inside K_N, Galerkin condition V^dagger (H x - theta x) = 0 on the exact '
+        'Krylov space (dense Arnoldi, orthogonalised twice); exp(delta H) psi0 against |psi0| V exp(delta V^dagger H V) e_1 also for unconverged runs. '
+        'Tolerances are widened by the loss of orthogonality that the textbook recurrence (three-term Lanczos without re-orthogonalisation / Arnoldi '
+        'with one Gram-Schmidt pass, transcribed densely) shows on the same input in double precision; beyond 1e-4 (outliers of the spectrum that '
+        'converge early, shifts that are large against the spread of the spectrum) only the bookkeeping / order / norms are judged (runs with '
+        'reortho=True and all vectors cached are always judged)',
+        'C16 stop rule: the iteration count of LanczosGroundState / LanczosEvolution is recomputed from alpha/beta of the run with the documented '
+        'rule (N_min, N_max, cutoff, (RitzRes/max(gap, min_gap))^2 < P_tol and Delta E0 < E_tol; evolution: |last coefficient| < P_tol); runs with '
+        'a comparison within a factor 5 of its threshold are not judged; the Arnoldi stop rule is not judged (Es rows are zero padded in the gap estimate)',
+        'C16 FlatLinearOperator.eigenvectors: ARPACK is used as it is - which=LI/SI only on complex operators (real ARPACK mode orders by |imag|), '
+        'exactly degenerate spectra only on the dense fallback path (num_ev >= dim - 1) and in the forced charge_sector=None cases; runs that end in '
+        'ArpackNoConvergence (forced with maxiter, or lanczos_arpack with ncv = N_min too small for the retry) are counted, not judged',
+        'C16 excluded by classification (coverage.api_coverage): plot_stats; abstract methods; psi0 given as a list of Arrays (not accepted by '
+        'npc.norm / npc.inner in the loops of krylov_based.py: unreachable through the options of the property)',
+        'C16 gram_schmidt: compared with the dense transcription of the documented rule when no norm is within a factor 100 of rcond and no '
+        'vector is pure rounding noise after the projection',
     ]
     return ctx.finish(RULE, 'theorems of coq/Props/C16.v about the cache / coefficient bookkeeping for all N, N_cache; the model is tied to '
                       'krylov_based.py by comparing the event trace of every instrumented Lanczos run (vm_compute); spectral clauses by dense oracle')
@@ -1318,8 +1353,12 @@ def option_tally(cases):
 
 RULE = ('block-sparse operators of dimension 1-60 (no charge, U(1), Z2, Z3, U(1)xZ2; sorted/unsorted/duplicate-charge legs), Hermitian '
         '(random, degenerate extremal eigenvalues, low rank, integer, clustered spectra) and general; start vectors random / in an '
-        'invariant subspace / unit vectors / rescaled; options N_min, N_max, N_cache (2..>N_max), reortho, E_shift, cutoff, P_tol, E_tol; '
-        'wrappers Shift/Sum/Orthogonal; exponents real/imaginary/complex; GMRES also with N_max far below the dimension (1..10 restarts), '
+        'invariant subspace / unit vectors / rescaled / real dtype on complex operators; every documented option of every solver class drawn at >= 2 '
+        'values (table coverage.api_coverage.options: N_min, N_max, N_cache (2..>N_max), reortho, E_shift (also 0.0), cutoff, P_tol, E_tol, min_gap, which, '
+        'num_ev, normalize omitted/None/True/False, delta float/complex/numpy scalar/0, rcond 1e-14..2); wrappers Shift/Sum/Boost/Orthogonal nested up to '
+        'depth 3 on one- and two-leg vectors (matvec, to_matrix, adjoint, unwrapped, delegation, list vectors) and given to the solvers; second run() '
+        'on the same solver object; FlatLinearOperator / FlatHermitianOperator incl. eigenvectors (which, num_ev, v0, v0_npc, cutoff, hermitian, '
+        'charge_sector given / 0 / None / changed by the setter), lanczos_arpack; exponents real/imaginary/complex; GMRES also with N_max far below the dimension (1..10 restarts), '
         'right-hand sides of norm 1e-3..1e3, zero / small / large initial guess, real and complex dtype (a gmresr case is non-trivial when it '
         'restarted).  A Lanczos case is non-trivial when N > 1; distinct = '
         'distinct (operator seed, options, wrapper).')
